@@ -17,7 +17,7 @@ Step(e) ==
     [] e.a = "ReplyChallenge" -> ReplyChallenge(e.k)
     [] e.a = "ReplyAuth" -> ReplyAuth(e.ok)
     [] e.a = "ReplyQuery" -> ReplyQuery(e.ok)
-    [] e.a = "Disconnect" -> Disconnect
+    [] e.a = "Disconnect" -> Disconnect(IF "clean" \in DOMAIN e THEN e.clean ELSE FALSE)
     [] OTHER -> FALSE
 TInit == /\ Init /\ tid \in 1..Len(Traces) /\ l = 1
          /\ scen = [methods |-> SeqSet(Traces[tid].scen.methods), cookie |-> Traces[tid].scen.cookie, pw |-> Traces[tid].scen.pw]
